@@ -105,6 +105,9 @@ def route_grammars(R):
                 # two parameters whose declared order is not their sorted order, passed positionally
                 R.Rule('T2', R.Seq(R.Ref('tag'), R.Str(':'), R.Ref('body')), params=['tag', 'body']),
                 R.Rule('T2U', R.Call(R.Ref('T2'), [R.Str('t'), R.Ref('X')])),
+                # keywords written in another order than declared; positional mixed with keyword
+                R.Rule('T2K', R.Call(R.Ref('T2'), [R.Kw('body', R.Ref('X')), R.Kw('tag', R.Str('t'))])),
+                R.Rule('T2M', R.Call(R.Ref('T2'), [R.Str('t'), R.Kw('body', R.Ref('X'))])),
                 R.Rule('X', R.Regex('b+'))]
     G.append(('templates', templates, {}))
 
@@ -197,6 +200,24 @@ def route_grammars(R):
             rules.append(R.Rule(f'O{d}', e))
         return [R.Rule('start', R.Ref('S9'))] + rules + [R.Rule('X', R.Regex('b+'))]
     G.append(('deep-nesting-threshold', deep_threshold, {'names': (None,)}))
+
+    def inline_python():
+        # inline Python in every position the grammar language allows it (each text carries a marker
+        # name zz_*): argument of a template / of a class, keyword argument, applied function, predicate,
+        # value of a `let`, element of a sequence, repetition bound
+        return [R.Rule('start', R.Call(R.Ref('T'), [R.Py('zz_arg()')])),
+                R.Rule('T', R.Right(R.Ref('p'), R.Str('!')), params=['p']),
+                R.Class('P', [R.Rule('v', R.Ref('X')), R.Rule('w', R.Ref('n'))], params=['n']),
+                R.Rule('CA', R.Call(R.Ref('P'), [R.Py('zz_cls_arg()')])),
+                R.Rule('KA', R.Call(R.Ref('T'), [R.Kw('p', R.Py('zz_kw_arg()'))])),
+                R.Rule('AP', R.new('Apply', R.Ref('X'), R.Py('zz_fn()'))),
+                R.Rule('WH', R.Where(R.Ref('X'), R.Py('zz_pred()'))),
+                R.Rule('LT', R.Let('q', R.Py('zz_let()'), R.Seq(R.Ref('X'), R.Py('q')))),
+                R.Rule('SQ', R.Seq(R.Ref('X'), R.Py('zz_elem()'))),
+                R.Rule('RB', R.List(R.Ref('X'), min_len='zz_lo()', max_len='zz_hi()')),
+                R.Rule('NA', R.Call(R.Ref('T'), [R.Call(R.Ref('T'), [R.Py('zz_nested_arg()')])])),
+                R.Rule('X', R.Regex('b+'))]
+    G.append(('inline-python', inline_python, {}))
 
     def let():
         return [R.Rule('start', R.Let('x', R.Ref('X'), R.Call(R.Ref('T'), [R.Ref('x')]))),
@@ -953,11 +974,30 @@ def context_wiring(mod, bad, stats):
             bad('WIRE-parent-readonly', f'{mod.label}: {ast.unparse(n)[:60]} modifies an object of the base grammar')
 
 
+def user_python_names(mod):
+    """names read by the inline Python the route grammar itself contains (expressions and symbolic
+    repetition bounds): they are the grammar author's, not the generator's"""
+    out = set()
+    for o in walk_objs(getattr(mod, 'body', None) or []):
+        texts = []
+        if o.cls.name == 'PythonExpression':
+            texts.append(o.d.get('source_code'))
+        elif o.cls.name == 'List':
+            texts += [o.d.get('min_len'), o.d.get('max_len')]
+        for t in texts:
+            if isinstance(t, str):
+                try:
+                    out |= {n.id for n in ast.walk(ast.parse(t, mode='eval')) if isinstance(n, ast.Name)}
+                except SyntaxError:
+                    pass
+    return out
+
+
 def free_names(mod, bad, stats):
     """every global name the emitted module loads is defined by it, by the runtime, or is a builtin"""
     import symtable
     ctx = mod.uses_context
-    defined = set(module_level_names(mod.tree))
+    defined = set(module_level_names(mod.tree)) | user_python_names(mod)
     if mod.sub:
         # the prologue imports the runtime from the parent
         for n in mod.tree.body:
@@ -1522,6 +1562,54 @@ def argument_captures(m, bad, stats):
                                 f'this invocation')
 
 
+def keyword_arguments(m, bad, stats):
+    """C06: `T(a=x)` binds by name *at the callee that runs* - which, in a named grammar, a sub-grammar may
+    have overridden with the parameters declared in another order.  So a keyword argument travels as a
+    keyword (name, value) in the call object; it is never turned into a position with the help of a
+    declaration seen at compile time.  For every rule of the route grammars whose body is one call, the
+    emitted call object carries exactly the written positional arguments and exactly the written names."""
+    body = getattr(m, 'body', None)
+    if not body or not m.uses_context:
+        return          # only a named grammar can be extended: elsewhere the declaration seen is the callee
+    for top in body:
+        if not isinstance(top, M.Obj) or top.cls.name != 'Rule' or not top.d.get('name'):
+            continue
+        call = top.d.get('expr')
+        if not (isinstance(call, M.Obj) and call.cls.name == 'Call'):
+            continue
+        args = call.d.get('args') or []
+        kws = [a.d.get('name') for a in args if isinstance(a, M.Obj) and a.cls.name == 'KeywordArg']
+        npos = len(args) - len(kws)
+        if not kws:
+            continue
+        fn = functions_top(m.tree).get(impl(top.d['name']))
+        if fn is None:
+            continue
+        calls = [n for n in ast.walk(fn) if isinstance(n, ast.Call) and isinstance(n.func, ast.Name)
+                 and n.func.id == '_ParseFunction' and len(n.args) == 3]
+        # the call object of the rule's own call: the one that is requested (outermost, built last)
+        stats['keyword_call_sites'] = stats.get('keyword_call_sites', 0) + 1
+        if not calls:
+            bad('ARG-by-name', f'{m.label}: {fn.name}: no call object for a call with keyword arguments {kws}')
+            continue
+        outer = calls[-1] if len(calls) == 1 else max(calls, key=lambda c: (c.lineno, c.col_offset))
+        pos_t, kw_t = outer.args[1], outer.args[2]
+        if not (isinstance(pos_t, ast.Tuple) and isinstance(kw_t, ast.Tuple)):
+            raise AnalysisError(f'{m.label}: {fn.name}: call object arguments are not literal tuples')
+        got = []
+        for e in kw_t.elts:
+            if isinstance(e, ast.Tuple) and len(e.elts) == 2 and isinstance(e.elts[0], ast.Constant):
+                got.append(e.elts[0].value)
+            else:
+                got.append(ast.unparse(e))
+        if sorted(got) != sorted(kws) or len(pos_t.elts) != npos:
+            bad('ARG-by-name', f'{m.label}: {fn.name}: the call is written with {npos} positional and the keyword '
+                               f'argument(s) {kws}; the emitted call object passes {len(pos_t.elts)} positional and the '
+                               f'keyword(s) {got}: a keyword argument turned into a position is bound by the order of '
+                               f'a declaration seen at compile time, not by name at the callee that runs (a '
+                               f'sub-grammar may override the callee with another parameter order)')
+
+
 def parameter_order(m, bad, stats):
     """positional arguments are emitted in the order written at the call; the function that receives
     them takes its parameters in the order declared by the rule or class (after the convention
@@ -1595,6 +1683,56 @@ def route_failures(pid, rep):
                                     getattr(exc, 'where', '') or 'sourcer/translator.py'))
 
 
+PY_MARKERS = ('zz_arg', 'zz_cls_arg', 'zz_kw_arg', 'zz_fn', 'zz_pred', 'zz_let', 'zz_elem', 'zz_lo', 'zz_hi',
+              'zz_nested_arg')
+
+
+def python_in_place(m, bad, stats):
+    """C18 / C05: inline Python is evaluated where the grammar puts it - inside the rule function, on
+    every visit of every parse call.  Text hoisted to module level (or into a default argument, a
+    decorator, a class body) is evaluated once, when the module is loaded: whatever it builds is then one
+    object shared by every parse call and every thread, and it cannot read the rule's locals."""
+    if getattr(m, 'route', '') != 'inline-python':
+        return
+    inside, outside = {}, {}
+
+    def walk(node, fn):
+        for ch in ast.iter_child_nodes(node):
+            if isinstance(ch, (ast.FunctionDef, ast.AsyncFunctionDef, ast.Lambda)):
+                # defaults and decorators are evaluated where the definition stands
+                for d in list(ch.args.defaults) + [x for x in ch.args.kw_defaults if x is not None] + \
+                        list(getattr(ch, 'decorator_list', [])):
+                    walk_expr(d, fn)
+                body = ch.body if isinstance(ch.body, list) else [ch.body]
+                for st in body:
+                    walk_stmt(st, ch if not isinstance(ch, ast.Lambda) else (fn or ch))
+            else:
+                if isinstance(ch, ast.Name) and ch.id in PY_MARKERS:
+                    (inside if fn is not None else outside).setdefault(ch.id, []).append(fn)
+                walk(ch, fn)
+
+    def walk_expr(e, fn):
+        if isinstance(e, ast.Name) and e.id in PY_MARKERS:
+            (inside if fn is not None else outside).setdefault(e.id, []).append(fn)
+        walk(e, fn)
+
+    walk_stmt = walk_expr
+    walk(m.tree, None)
+    for mk in PY_MARKERS:
+        stats['inline_python_sites'] = stats.get('inline_python_sites', 0) + 1
+        if mk in outside:
+            bad('PY-in-place@' + mk, f'{m.label}: the inline Python `{mk}()` is evaluated at module level (once, when '
+                                      f'the module is loaded) instead of inside the rule function: its value is shared '
+                                      f'by every parse call on the module')
+        elif mk not in inside:
+            bad('PY-in-place@' + mk, f'{m.label}: the inline Python `{mk}()` does not appear in the emitted module')
+        else:
+            gens = [f for f in inside[mk] if isinstance(f, ast.FunctionDef)]
+            if not all(f.name.startswith(emitted_prefixes()) for f in gens):
+                bad('PY-in-place@' + mk, f'{m.label}: the inline Python `{mk}()` is evaluated in '
+                                          f'{sorted({f.name for f in gens})}, not in a rule function')
+
+
 def run(rep, pid, rules, label_filter=None, always=()):
     """run the module-level route rules; add findings whose rule id starts with one of `rules`"""
     R, mods = emitted_modules()
@@ -1616,6 +1754,8 @@ def run(rep, pid, rules, label_filter=None, always=()):
         temp_allocation_unique(m, bad, stats)
         argument_captures(m, bad, stats)
         parameter_order(m, bad, stats)
+        keyword_arguments(m, bad, stats)
+        python_in_place(m, bad, stats)
     ignore_distribution(R, bad, stats)
     start_prefix_and_ignored_rule(R, mods, bad, stats)
     route_ignored_sets(R, bad, stats)
